@@ -193,7 +193,7 @@ theorem createQ_quiet : ∀ (ds : List Dest) (l : Loc), ∀ op ∈ (createQ l ds
 
 theorem qOnly_not_dest (m : RefMap) : ∀ r ∈ qOnly m, r.isDest = false := by
   intro r hr
-  unfold qOnly at hr
+  rw [mem_qOnly] at hr; unfold qRaw at hr
   simp only [List.mem_map, List.mem_filter] at hr
   obtain ⟨rc, ⟨_, hq⟩, rfl⟩ := hr
   cases hrc : rc.1 <;> simp [hrc] at hq <;> rfl
